@@ -31,7 +31,7 @@ ASSUMPTIONS = [
     "templates for placement are even-sized cubes with a one-voxel empty margin; complete positions are integers",
     "the symmetrisation reference uses scipy.ndimage.map_coordinates (order 3) directly, not cryoCAT's rotate nor affine_transform",
 ]
-BUDGET = {"quick": {"examples": 1500, "seconds": 85}, "thorough": {"examples": 5000, "seconds": 540}}
+BUDGET = {"quick": {"examples": 2500, "seconds": 85}, "thorough": {"examples": 5000, "seconds": 540}}
 EXHAUSTIVE = "all 24 cube rotations x 12 box shapes (odd, even, non-cubic) x all interior voxels, through all three call forms"
 
 CUBES = oracle.cube_rotations()
